@@ -1,1 +1,104 @@
-From Tx Require Import Common.Base.
+(* C01 - vnet delivers each datagram at most once, intact, in order, to its socket only.
+
+   Model: Vnet/Network.v. A history is any sequence of events - WriteTo on any socket to any address,
+   the forwarding of one chunk by any router, ReadFrom, bind, Close, time passing, Start/Stop - on any
+   topology (any forest of routers of any depth and width, any NAT configuration, hosts with any
+   addresses). Every interleaving of writers, readers and router goroutines is such a sequence. *)
+From Tx Require Import Common.Base Common.ListZ Nat.Model Nat.Spec Nat.Proofs VnetAddr.Model
+  Vnet.Network Vnet.NetProofs Vnet.Loss Vnet.Reply.
+
+Definition reachable (t : topo) (nats : list nat_state) (s : nst) : Prop := exists h, s = nrun t (n_init t nats) h.
+
+Lemma reachable_inv t nats s : reachable t nats s -> NetInv s.
+Proof. intros [h ->]. apply netinv_run. apply netinv_init. Qed.
+
+(* At most once, nothing invented: in every reachable state each datagram identity occurs at most once over
+   all router queues, all socket receive queues and everything ReadFrom has handed out - so no datagram is
+   delivered twice, to two sockets, or both delivered and still in flight - and only identities of datagrams
+   that were written occur at all. *)
+Theorem C01_at_most_once : forall t nats s, reachable t nats s ->
+  forall id, cnt id (places s) <= 1 /\ (cnt id (places s) = 1 -> 0 <= id < n_next s).
+Proof.
+  intros t nats s R id. destruct (ni_amo s (reachable_inv t nats s R)) as [Hn H].
+  specialize (H id). rewrite idcount_places in H. pose proof (cnt_nonneg id (places s)).
+  destruct ((0 <=? id) && (id <? n_next s)) eqn:E; split; lia.
+Qed.
+Print Assumptions C01_at_most_once.
+
+(* Intact: whatever sits in a queue or was handed to a reader carries the identity and the bytes of a datagram
+   that some WriteTo accepted (the i-th accepted write has identity i). *)
+Theorem C01_payload_intact : forall t nats s c, reachable t nats s -> In c (places s) ->
+  exists w, nth_error (n_written s) (Z.to_nat (c_id c)) = Some w /\ c_id w = c_id c /\ c_data w = c_data c.
+Proof.
+  intros t nats s c R Hin. destruct (ni_intact s (reachable_inv t nats s R)) as [P [W N]].
+  destruct (P c Hin) as [w [Hw [Hid Hd]]]. apply In_nth_error in Hw. destruct Hw as [i Hi].
+  pose proof (W i w Hi) as Hwi. exists w. rewrite Hid, Hwi, Nat2Z.id. auto.
+Qed.
+Print Assumptions C01_payload_intact.
+
+(* Only to its socket: a datagram in the receive queue of socket i (or read from it) is addressed - after the
+   inbound translations on its path - to the port of that socket and to its address (or the socket is bound to
+   the wildcard), and its trail ends in that socket's queue; a connected socket hands out only datagrams
+   whose source is its remote address. (That at most one open socket covers an address is C13.) *)
+Theorem C01_delivered_to_covering_socket : forall t nats s i k c, reachable t nats s ->
+  nth_error (n_socks s) i = Some k -> In c (sock_chunks k) ->
+  k_port k = snd (c_dst c) /\ (fst (c_dst c) = 0 \/ k_ip k = 0 \/ k_ip k = fst (c_dst c)) /\
+  (exists T, c_trail c = T ++ [place_sock i]) /\
+  (forall a, In c (k_log k) -> k_rem k = Some a -> c_src c = a).
+Proof.
+  intros t nats s i k c R Hk Hin. destruct (ni_place s (reachable_inv t nats s R)) as [A B C].
+  destruct (A i k c Hk Hin) as [[P1 P2] P3]. repeat split; try assumption. intros a Hl Hr. eapply B; eauto.
+Qed.
+Print Assumptions C01_delivered_to_covering_socket.
+
+(* In order: within one socket - in the order [sock_chunks] in which ReadFrom hands datagrams out - two
+   datagrams that travelled through the same sequence of queues appear in the order in which they were written;
+   and nowhere in the network has a later datagram got ahead of an earlier one on the same trail. For a
+   fixed sender socket and destination address the sequence of queues is fixed by the topology (up to the router
+   whose subnet holds the destination, then down by NIC lookups) as long as the NAT mappings involved persist. *)
+Theorem C01_fifo_same_trail_partial : forall t nats s, reachable t nats s ->
+  (forall i k, nth_error (n_socks s) i = Some k -> lsorted (sock_chunks k)) /\
+  (forall a b, In a (places s) -> In b (places s) -> c_id a < c_id b -> ~ strict_prefix (c_trail a) (c_trail b)).
+Proof.
+  intros t nats s R. destruct (ni_fifo s (reachable_inv t nats s R)) as [Q S N]. split; assumption.
+Qed.
+Print Assumptions C01_fifo_same_trail_partial.
+
+(* Not lost: a forwarding step keeps the datagram - it is in the next queue afterwards, same identity and bytes -
+   whenever [hop_admits] holds, which spells out: routers started; a NIC holds the destination address, or there is
+   a parent; the NAT translates it (C02/C03); the next router queue is below its capacity; the destination host has
+   an open socket covering the address whose receive queue is not full. The same for the write itself. *)
+Theorem C01_hop_not_lost : forall t s r c rest, getq s r = c :: rest -> hop_admits t s r = true ->
+  exists c' p, In c' (places (route t s r)) /\ (c_id c' = c_id c /\ c_data c' = c_data c) /\ c_trail c' = c_trail c ++ [p].
+Proof. exact hop_not_lost. Qed.
+Print Assumptions C01_hop_not_lost.
+
+Theorem C01_write_not_lost : forall t s k dst data, write_admits t s k dst = true ->
+  snd (write t s k dst data) = 0 /\
+  exists c' p, In c' (places (fst (write t s k dst data))) /\ c_id c' = n_next s /\ c_data c' = data /\ c_trail c' = [p].
+Proof. exact write_not_lost. Qed.
+Print Assumptions C01_write_not_lost.
+
+(* The reply reaches the sender: through any chain of NATs (innermost first; NAPT of any mapping/filtering
+   behaviour, or 1:1), after any further traffic through them, a reply sent from the address the original was sent to,
+   to the source address the original showed, is translated back to the original source - as long as no mapping
+   lifetime has passed. (On the NAT Spec, which the model's NAT refines: C02_model_refines_spec.) *)
+Theorem C01_reply_through_nat_chain : forall ns t src dst ns1 ext ns2 t',
+  Forall hop_ok ns -> up t ns src dst = Some (ns1, ext) -> later t ns1 ns2 ->
+  (forall n, In n ns -> t' <= t + lifetime n) ->
+  down t' ns2 dst ext = Some src.
+Proof. exact reply_through_chain. Qed.
+Print Assumptions C01_reply_through_nat_chain.
+
+(* non-vacuity: a LAN behind a NAT (address and port dependent filtering) and a server on the root network:
+   the datagram arrives with the translated source, the reply comes back, an unsolicited one does not. *)
+Example C01_example :
+  net_model_run
+    [[1; -1; 16909056; 4294967040; 0; 0; 0; 0; 0; 0];
+     [1; 0; 3232235776; 4294967040; 0; 0; 0; 2; 30000000000; 1; 16909166];
+     [2; 0; 16909060]; [2; 1; 3232235777]]
+    [[7]; [3; 0; 0; 7; 0; 0; 0]; [3; 1; 0; 5000; 0; 0; 0]; [3; 0; 0; 8; 0; 0; 0];
+     [1; 1; 16909060; 7; 104; 105]; [2; 0];
+     [1; 0; 16909166; 49152; 111; 107]; [1; 2; 16909166; 49152; 66]; [2; 1]; [2; 1]]
+  = [[0]; [0; 0]; [0; 1]; [0; 2]; [0]; [1; 16909166; 49152; 2; 104; 105]; [0]; [0]; [1; 16909060; 7; 2; 111; 107]; [-1]].
+Proof. vm_compute. reflexivity. Qed.
